@@ -30,6 +30,7 @@ def run(ctx, report):
     report.section("SRT", srt_site, ctx, report, ev)
     report.section("WebVTT", webvtt_site, ctx, report, ev, folder)
     report.section("DFXP", dfxp_site, ctx, report, ev, folder)
+    report.section("DFXP fraction digits", fraction_digits_section, ctx, report, ev, folder)
     report.section("MicroDVD", microdvd_site, ctx, report, ev, folder)
     report.section("SAMI", sami_site, ctx, report, ev, folder)
     report.section("append-order", append_order, ctx, report)
@@ -417,6 +418,65 @@ def dfxp_site(ctx, report, ev, folder):
         report.check(ww is None and ww2 is None, "R-GROUP-ROLE", (top, uses[0].node),
                      f"TIME_EXPRESSION_PATTERN group '{name}'",
                      {"witness": ww if ww is not None else ww2} if (ww is not None or ww2 is not None) else None, "2")
+
+
+def fraction_digits_section(ctx, report, ev, folder):
+    clock = ctx.index.get_function("pycaption/dfxp/base.py", "DFXPReader._convert_clock_time_to_microseconds")
+    pat = folder.value("pycaption.dfxp.base", "TIME_EXPRESSION_PATTERN")
+    if not isinstance(pat, RegexConst):
+        raise AnalysisError("TIME_EXPRESSION_PATTERN does not fold to a compiled pattern")
+    fraction_digits(ctx, report, ev, clock, pat)
+
+
+def fraction_digits(ctx, report, ev, clock, pat, max_len=9):
+    """The second fraction, digit by digit: the clock-time routine is evaluated symbolically on a
+    match whose fraction group is a string of n SYMBOLIC decimal digits d1..dn, for every n in
+    1..max_len.  The result must be  hours, minutes, seconds at their scales + sum_{i<=6} d_i *
+    10^(6-i)  microseconds (digits past the sixth are below the resolution: any weight between 0
+    and their true one), with no float rounding.  This is independent of how the normalisation is
+    spelled (slicing, padding, scaling by a power of ten ...)."""
+    from ..engines.symeval import SDigits, NONE
+    g = lambda k: f"M[$stamp].g<{k}>"
+    base = {f"int({g('hours')})": US_H, f"int({g('minutes')})": US_M, f"int({g('seconds')})": US_S}
+    bad = []
+    evaluated = 0
+    for n in range(1, max_len + 1):
+        m = SMatch(pat, "$stamp", "match")
+        digs = SDigits.symbolic("fraction", n)
+        m.overrides = {"sub_frames": digs, "frames": NONE}
+        try:
+            outs = ev().run(clock, {clock.params[0]: m})
+        except AnalysisError as e:
+            raise AnalysisError(f"DFXP clock time with a {n}-digit fraction: {e}")
+        vals = [o for o in outs if isinstance(o.value, Poly)]
+        if len(vals) != 1:
+            raise AnalysisError(f"DFXP clock time with a {n}-digit fraction: {len(vals)} value paths")
+        evaluated += 1
+        v = vals[0].value
+        inner, floored = unwrap_floor(v)
+        form = form_dict(inner)
+        why = []
+        for k, c in base.items():
+            if form.pop(k, 0) != c:
+                why.append(f"{k} not scaled by {c}")
+        for i in range(1, n + 1):
+            c = Fraction(form.pop(f"fraction#{i}", 0))
+            true = Fraction(10 ** 6, 10 ** i)
+            if i <= 6 and c != true:
+                why.append(f"digit {i} of the fraction weighs {c} us instead of {true}")
+            if i > 6 and not (0 <= c <= true):
+                why.append(f"digit {i} of the fraction weighs {c} us (at most {true})")
+        form.pop("", None) if form.get("", 0) == 0 else None
+        if form:
+            why.append(f"unexpected terms {sorted(form)[:3]}")
+        if v.isfloat and (v.rounds or 0) > 0:
+            why.append("the value went through binary floating point")
+        if why:
+            bad.append({"fraction_digits": n, "problems": why[:3], "computed": inner.show()[:160]})
+    report.check(not bad, "R-FRACTION-DIGITS", clock,
+                 "hh:mm:ss.fraction: every digit of a 1..%d digit fraction has its decimal weight in microseconds" % max_len,
+                 {"lengths_evaluated": evaluated, "mismatches": bad[:3],
+                  "not_decided": f"fractions longer than {max_len} digits"}, "2")
 
 
 def _fraction_chain(chain):
